@@ -30,8 +30,8 @@ ASSUMPTIONS = [
 ]
 EXHAUSTIVE = {"quick": False, "thorough": True}
 PLAN = {"quick": dict(depth2=5000, depth3=0), "thorough": dict(depth2=None, depth3=60000)}
-FLOORS = {"quick": {"annotations_built": 5000, "passthrough_probes": 120, "rebuild_fingerprints": 5000, "leaf_kinds": 48, "constructors": 30, "generic_class_probes": 60, "bare_container_probes": 150, "iterator_probes": 300, "bare_plain_probes": 100},
-          "thorough": {"annotations_built": 60000, "passthrough_probes": 120, "rebuild_fingerprints": 60000, "leaf_kinds": 48, "constructors": 30, "generic_class_probes": 80, "bare_container_probes": 200, "iterator_probes": 3000, "bare_plain_probes": 120}}
+FLOORS = {"quick": {"annotations_built": 5000, "passthrough_probes": 120, "rebuild_fingerprints": 5000, "leaf_kinds": 50, "constructors": 30, "generic_class_probes": 60, "bare_container_probes": 150, "iterator_probes": 300, "bare_plain_probes": 100},
+          "thorough": {"annotations_built": 60000, "passthrough_probes": 120, "rebuild_fingerprints": 60000, "leaf_kinds": 50, "constructors": 30, "generic_class_probes": 80, "bare_container_probes": 200, "iterator_probes": 3000, "bare_plain_probes": 120}}
 
 MOD = "vtot_ns"
 SRC = '''
@@ -74,10 +74,10 @@ class CallableDC:
 LEAVES = ["int", "str", "float", "bool", "bytes", "type(None)", "decimal.Decimal", "fractions.Fraction", "datetime.date", "datetime.datetime",
           "datetime.time", "datetime.timedelta", "uuid.UUID", "pathlib.Path", "re.Pattern", "typing.Any", "object", "list", "dict", "tuple", "set",
           "frozenset", "typing.List", "typing.Dict", "typing.Tuple", "typing.Set", "typing.Sequence", "typing.Mapping", "collections.abc.Iterable",
-          "T", "TE", "TB", "TC", "typing.Callable", "typing.Callable[..., typing.Any]", "typing.Callable[[int], str]", "collections.abc.Callable",
+          "T", "TE", "TB", "TC", "typing.Callable", "typing.Callable[..., typing.Any]", "typing.Callable[[int], str]", "typing.Callable[[int], None]", "typing.Callable[[], None]", "collections.abc.Callable",
           "type", "type[int]", "typing.Type[int]", "Box", "Box[int]", "GBox", "GBox[int]", "NoHints", "Col", "D", "NT", "TD", "typing.Literal[1, 'a']", "CallableDC",
           "bytearray"]
-UNRESOLVABLE = {"typing.Any", "object", "T", "TE", "typing.Callable", "typing.Callable[..., typing.Any]", "typing.Callable[[int], str]", "collections.abc.Callable"}
+UNRESOLVABLE = {"typing.Any", "object", "T", "TE", "typing.Callable", "typing.Callable[..., typing.Any]", "typing.Callable[[int], str]", "typing.Callable[[int], None]", "typing.Callable[[], None]", "collections.abc.Callable"}
 CTORS = {
     "list": "list[{}]", "set": "set[{}]", "frozenset": "frozenset[{}]", "tuplevar": "tuple[{}, ...]", "tuplefix": "tuple[{}, int]",
     "dict": "dict[str, {}]", "Optional": "typing.Optional[{}]", "Union": "typing.Union[{}, int]", "pipe": "({}) | None", "typing.List": "typing.List[{}]",
